@@ -1,6 +1,7 @@
 package main
 
 import (
+	"github.com/ChrisTrenkamp/xsel"
 	"fmt"
 	"strings"
 )
@@ -17,7 +18,7 @@ func init() {
 	rules["C02"] = "paths whose steps/filter expressions carry 1-3 predicates (integers in and out of range, k+0.5, NaN, last(), last()-k, position() op k, context-dependent numbers such as count(x), number(@*), position(), last()+1-position(), boolean, node-set, string, nested, absolute paths, filters over bound node-sets $v[k]) from every 3rd node of each document; " +
 		"filter expressions (E)[p], (E)[p]/s, $v/s, f()//s; metamorphic pairs P[n] vs P[position()=n], P[last()] vs P[position()=last()] on the implementation; non-trivial: result non-empty and smaller than the unfiltered step result"
 	rules["C03"] = "node-set valued expressions of every family (multi-context steps, //x/.., ancestor::* from siblings, attribute/namespace steps after reverse steps, unions); checked on the implementation's output directly " +
-		"(no duplicate paths, every path valid, strictly monotone in true document order, ascending when no reverse axis/for unions) and against the model; union laws A|B=B|A, (A|B)|C=A|(B|C), A|A=A, count(A|B)=count(A)+count(B)-|A and B| across separately executed queries; non-trivial: >= 2 nodes"
+		"(no duplicate paths, every path valid, strictly monotone in true document order, ascending when no reverse axis/for unions) and against the model; union laws A|B=B|A, (A|B)|C=A|(B|C), A|A=A, count(A|B)=count(A)+count(B)-|A and B| across separately executed queries, and again on the node-sets two queries RETURNED, bound as $A and $B (the caller's slices, with their spare capacity) and combined repeatedly; non-trivial: >= 2 nodes"
 	rules["C18"] = "every node of each document as starting cursor x relative expressions (may leave the subtree); every split point of generated paths P/R: Exec(root,P/R) vs union over n in Exec(root,P) of Exec(n,R); P/f() vs f(P) for the context-dependent builtins; non-trivial: non-empty result"
 }
 
@@ -26,6 +27,8 @@ func twoNodes(res string) bool     { return len(strings.Fields(res)) >= 3 }
 
 func (rn *Runner) genDoc(maxNodes int) *Doc {
 	g := NewDocGen(rn.R.Fork(), maxNodes, 6)
+	rn.docsMade++
+	g.Stress = rn.stressEvery > 0 && rn.docsMade%rn.stressEvery == 1 // families that opt in get the large shapes in some documents
 	top := g.Top()
 	d := rn.NewDoc(eventsOf(top, nil))
 	rn.Count(fmt.Sprintf("doc-nodes:%d", (len(d.Paths)/20)*20))
@@ -456,6 +459,58 @@ func famC03(rn *Runner) {
 				rn.Report(&Replay{Family: "union-laws", Clause: "inclusion-exclusion", Kind: "query", Events: d.Events, Start: ".", Env: env,
 					Text: Render(bin("|", a, b), RenderOpts{}), ExprSx: SxExpr(bin("|", a, b)), Doc: showEvents(d.Events),
 					Impl: fmt.Sprint(len(rab)), Model: fmt.Sprint(len(ra) + len(rb) - common)}, "count(A|B) != count(A)+count(B)-common")
+			}
+		}
+		// the same laws on RESULTS THE CALLER HOLDS: the node-sets returned by two queries (with whatever spare capacity the
+		// library left in them) are bound as $A and $B and combined repeatedly; every answer must be the one the model gives
+		// for the node-sets as first returned
+		for i := 0; i < rn.Scale(40, 150) && !rn.TooMany(); i++ {
+			ea, eb := g.NodeSet(1, 2), g.NodeSet(1, 2)
+			exec := func(e Expr) (xsel.NodeSet, bool) {
+				gr, err := buildCached(Render(e, RenderOpts{}))
+				if err != nil {
+					return nil, false
+				}
+				res, xerr := xsel.Exec(d.Root, gr, env.Settings(d.Root)...)
+				ns, ok := res.(xsel.NodeSet)
+				return ns, ok && xerr == nil
+			}
+			A, okA := exec(ea)
+			B, okB := exec(eb)
+			if !okA || !okB || len(A)+len(B) == 0 {
+				continue
+			}
+			snap := func(ns xsel.NodeSet) []Path {
+				var ps []Path
+				for _, c := range ns {
+					p, _ := pathOf(c)
+					ps = append(ps, p)
+				}
+				return ps
+			}
+			env2 := &Env{NS: env.NS, Funs: env.Funs, Vars: append(append([]VarBind{}, env.Vars...),
+				VarBind{"", "A", VarVal{Kind: "nodes", Nodes: snap(A)}}, VarBind{"", "B", VarVal{Kind: "nodes", Nodes: snap(B)}})}
+			settings := append(env.Settings(d.Root), xsel.WithVariable("A", A), xsel.WithVariable("B", B))
+			va, vb := &EVar{RawQ{Local: "A"}}, &EVar{RawQ{Local: "B"}}
+			var trace []string
+			for _, e := range []Expr{bin("|", va, vb), bin("|", vb, va), bin("|", va, va), bin("|", va, vb), call("count", bin("|", vb, va)), va, vb} {
+				text := Render(e, RenderOpts{})
+				gr, err := buildCached(text)
+				if err != nil {
+					continue
+				}
+				res, xerr := xsel.Exec(d.Root, gr, settings...)
+				impl := projectResult(res, xerr)
+				model := rn.M.Ask((&QCase{Doc: d, Start: Path{}, Env: env2, E: e}).ModelCmd())
+				trace = append(trace, text)
+				rn.Eval("held|"+fmt.Sprint(d.ID)+Render(ea, RenderOpts{})+"|"+Render(eb, RenderOpts{})+"|"+strings.Join(trace, ";"), len(A) >= 1 && len(B) >= 1)
+				if !agree(impl, model) && !rn.TooMany() {
+					rn.Report(&Replay{Family: "union-laws-held-results", Clause: "unions of node-sets the caller holds, evaluated repeatedly", Kind: "query", Events: d.Events, Start: ".", Env: env2,
+						Text: text, ExprSx: SxExpr(e), Doc: showEvents(d.Events), Impl: impl, Model: model,
+						Note: fmt.Sprintf("$A = result of %s, $B = result of %s (the slices as returned); evaluated in order: %s", Render(ea, RenderOpts{}), Render(eb, RenderOpts{}), strings.Join(trace, " ; "))},
+						fmt.Sprintf("with $A, $B the results of %s and %s, after [%s]: %s gives %s, expected %s", Render(ea, RenderOpts{}), Render(eb, RenderOpts{}), strings.Join(trace, " ; "), text, impl, model))
+					break
+				}
 			}
 		}
 		rn.DropDoc(d)
